@@ -45,14 +45,28 @@ theorem HRun.times {h : Host} {c : Int} {evs : List Ev} {h' : Host} {c' : Int} {
     · exact this
     · have := ih.2 p hp; omega
 
-/-- what a block does to queue `d`: nothing, one `add` (an assembled query), or its timer callback -/
+/-- what a block does to queue `d`: nothing, one `add` (an assembled query), its timer callback, or a withdrawal
+(`async_remove_answers`) -/
 theorem step_queue_effect (d : Bool) {h : Host} {e : Ev} {r : StepOut} {a : Act} (hd : h.decide e = .ok a)
     (hp : h.perform e.time e.seen e.draws a = .ok r) :
     (r.host.q d = h.q d ∧ (∀ s, e = .qfire s d → False)) ∨
     (∃ c now dr ans, r.host.q d = (h.q d).add (qpOf d) c now dr ans ∧ (∀ s, e = .qfire s d → False)) ∨
     (∃ s, e = .qfire s d ∧ r.host.q d = ((h.q d).ready s).1 ∧
-      r.outs = (match ((h.q d).ready s).2 with | some b => [Out.ofMcast b] | none => [])) := by
+      r.outs = (match ((h.q d).ready s).2 with | some b => [Out.ofMcast b] | none => [])) ∨
+    (∃ s recs, e = .qremove s d recs ∧ r.host.q d = (h.q d).removeRecords recs) := by
   cases a with
+  | remove d' recs =>
+    obtain ⟨t, rfl⟩ := decide_remove hd
+    obtain ⟨_, _, hf, ht⟩ := perform_remove hp
+    cases d <;> cases d'
+    · obtain ⟨e1, _⟩ := hf rfl
+      right; right; right; exact ⟨t, recs, rfl, e1⟩
+    · obtain ⟨_, e2⟩ := ht rfl
+      left; exact ⟨e2, by intro s hs; cases hs⟩
+    · obtain ⟨_, e2⟩ := hf rfl
+      left; exact ⟨e2, by intro s hs; cases hs⟩
+    · obtain ⟨e1, _⟩ := ht rfl
+      right; right; right; exact ⟨t, recs, rfl, e1⟩
   | idle lis =>
     obtain ⟨hr, _⟩ := perform_idle hp
     left; rw [hr]
@@ -87,13 +101,13 @@ theorem step_queue_effect (d : Bool) {h : Host} {e : Ev} {r : StepOut} {a : Act}
     obtain ⟨_, hf, ht⟩ := perform_ready hp
     cases d <;> cases d'
     · obtain ⟨e1, _, e3⟩ := hf rfl
-      right; right; exact ⟨t, rfl, e1, e3⟩
+      right; right; left; exact ⟨t, rfl, e1, e3⟩
     · obtain ⟨_, e2, _⟩ := ht rfl
       left; exact ⟨e2, by intro s hs; cases hs⟩
     · obtain ⟨_, e2, _⟩ := hf rfl
       left; exact ⟨e2, by intro s hs; cases hs⟩
     · obtain ⟨e1, _, e3⟩ := ht rfl
-      right; right; exact ⟨t, rfl, e1, e3⟩
+      right; right; left; exact ⟨t, rfl, e1, e3⟩
 
 /-- **safety over host runs**: whatever a queue's timer callback multicasts in a run lies inside the window of an `add` of
 that run (or of the history before it) for each of its records; the batch carries no record twice -/
@@ -111,9 +125,11 @@ theorem HRun.safe (d : Bool) {h : Host} {c : Int} {evs : List Ev} {h' : Host} {c
     rcases List.mem_cons.mp hp with rfl | hp
     · -- the batch of this very block
       simp only at hps ho
-      rcases step_queue_effect d hd hperf with ⟨_, hn⟩ | ⟨_, _, _, _, _, hn⟩ | ⟨s', hes, _, houts⟩
+      rcases step_queue_effect d hd hperf with ⟨_, hn⟩ | ⟨_, _, _, _, _, hn⟩ | ⟨s', hes, _, houts⟩ | ⟨s', recs, hes, _⟩
       · exact absurd hps (fun hh => hn s hh)
       · exact absurd hps (fun hh => hn s hh)
+      rotate_left
+      · rw [hes] at hps; cases hps
       · rw [hes] at hps
         have hss : s' = s := by cases hps; rfl
         subst hss
@@ -140,28 +156,40 @@ theorem HRun.safe (d : Bool) {h : Host} {c : Int} {evs : List Ev} {h' : Host} {c
       rw [hstep]
       cases d <;> simp only [Bool.false_eq_true, if_false, if_true, List.append_assoc] at had ⊢ <;> exact had
 
+/-- record `x` is withdrawn from queue `d` by a block of the trace (`async_remove_answers` naming it: its service was unregistered) -/
+def withdrawnInTrace (d : Bool) (tr : List (Ev × StepOut)) (x : RecId) : Prop :=
+  ∃ p ∈ tr, ∃ s recs, p.1 = .qremove s d recs ∧ x ∈ recs
+
 /-- **liveness over host runs**: a record queued in queue `d` is multicast by that queue's timer callback before its group's
-deadline, or is still queued at the end of the run -/
+deadline, or is still queued at the end of the run, or was withdrawn by an `async_remove_answers` block of the run -/
 theorem HRun.live (d : Bool) {h : Host} {c : Int} {evs : List Ev} {h' : Host} {c' : Int} {tr : List (Ev × StepOut)}
     (hr : HRun h c evs h' c' tr) :
     ∀ hO hD, HInv hO hD c h → ∀ (x : RecId) (D : Int),
       (∃ g ∈ (h.q d).groups, x ∈ g.answers.keys ∧ g.born + (qpOf d).agg + (qpOf d).addl ≤ D) →
       (∃ p ∈ tr, ∃ s b, p.1 = .qfire s d ∧ Out.ofMcast b ∈ p.2.outs ∧ x ∈ b.keys ∧ s ≤ D) ∨
-      (∃ g ∈ (h'.q d).groups, x ∈ g.answers.keys ∧ g.born + (qpOf d).agg + (qpOf d).addl ≤ D) := by
+      (∃ g ∈ (h'.q d).groups, x ∈ g.answers.keys ∧ g.born + (qpOf d).agg + (qpOf d).addl ≤ D) ∨
+      withdrawnInTrace d tr x := by
   induction hr with
-  | nil h c => intro hO hD _ x D hq; exact Or.inr hq
+  | nil h c => intro hO hD _ x D hq; exact Or.inr (Or.inl hq)
   | @cons h clock e es r h' c' tr hax hs _ ih =>
     intro hO hD hI x D ⟨g, hg, hx, hD'⟩
     obtain ⟨a, hd, hperf⟩ := step_decide hs
     have hI' := hI.step hax hd hperf
     have cont : (∃ g ∈ (r.host.q d).groups, x ∈ g.answers.keys ∧ g.born + (qpOf d).agg + (qpOf d).addl ≤ D) →
         (∃ p ∈ (e, r) :: tr, ∃ s b, p.1 = .qfire s d ∧ Out.ofMcast b ∈ p.2.outs ∧ x ∈ b.keys ∧ s ≤ D) ∨
-        (∃ g ∈ (h'.q d).groups, x ∈ g.answers.keys ∧ g.born + (qpOf d).agg + (qpOf d).addl ≤ D) := by
+        (∃ g ∈ (h'.q d).groups, x ∈ g.answers.keys ∧ g.born + (qpOf d).agg + (qpOf d).addl ≤ D) ∨
+        withdrawnInTrace d ((e, r) :: tr) x := by
       intro hq
-      rcases ih _ _ hI' x D hq with ⟨p, hp, rest⟩ | hfin
+      rcases ih _ _ hI' x D hq with ⟨p, hp, rest⟩ | hfin | ⟨p, hp, rest⟩
       · exact Or.inl ⟨p, List.mem_cons_of_mem _ hp, rest⟩
-      · exact Or.inr hfin
-    rcases step_queue_effect d hd hperf with ⟨heq, _⟩ | ⟨cc, now, dr, ans, heq, _⟩ | ⟨s, hes, heq, houts⟩
+      · exact Or.inr (Or.inl hfin)
+      · exact Or.inr (Or.inr ⟨p, List.mem_cons_of_mem _ hp, rest⟩)
+    rcases step_queue_effect d hd hperf with ⟨heq, _⟩ | ⟨cc, now, dr, ans, heq, _⟩ | ⟨s, hes, heq, houts⟩ | ⟨s, recs, hes, heq⟩
+    rotate_right
+    · by_cases hrm : x ∈ recs
+      · exact Or.inr (Or.inr ⟨(e, r), List.mem_cons_self, s, recs, hes, hrm⟩)
+      · obtain ⟨g', hg', hx', hb⟩ := Queue.remove_keeps (h.q d) recs hg hx hrm
+        exact cont ⟨g', by rw [heq]; exact hg', hx', by rw [hb]; exact hD'⟩
     · exact cont ⟨g, by rw [heq]; exact hg, hx, hD'⟩
     · obtain ⟨g', hg', hx', hb⟩ := Queue.add_keeps (qpOf d) (h.q d) cc now dr ans hg hx
       exact cont ⟨g', by rw [heq]; exact hg', hx', by rw [hb]; exact hD'⟩
@@ -208,6 +236,7 @@ theorem traceAdds_origin (d : Bool) : ∀ (tr : List (Ev × StepOut)) (h : Host)
         | idle _ => cases had
         | defer _ _ => cases had
         | ready _ => cases had
+        | remove _ _ => cases had
         | answer lis pkts addr port =>
           simp only [actAdds] at had
           cases hf : pkts.head? with
